@@ -7,6 +7,7 @@ import (
 	"io"
 
 	"github.com/containerd/containerd/v2/pkg/reference"
+	"github.com/containerd/stargz-snapshotter/fs/remote"
 	ocispec "github.com/opencontainers/image-spec/specs-go/v1"
 )
 
@@ -54,4 +55,12 @@ func VerifReadFileC12(l Layer, name string, size int) ([]byte, error) {
 		return nil, err
 	}
 	return p[:n], nil
+}
+
+// VerifBlobC12 returns the remote blob behind a Layer handed out by Resolve (identity, and to age its last check).
+func VerifBlobC12(l Layer) remote.Blob {
+	if lr, ok := l.(*layerRef); ok {
+		return lr.layer.blob.Blob
+	}
+	return nil
 }
